@@ -66,9 +66,10 @@ DECIDED = {
             "Table-driven float construction, by SMT over the compiler's MIR (crate 'smt'): for every decimal exponent in the stated set "
             "(quick: both ends of the table-product guard, every 16th exponent and all of -6..24; thorough: every exponent in -345..345) and "
             "EVERY significand 1 <= w < 10^19 with no digit dropped, every path of parse_float that returns a double built by interpreted "
-            "integer code - parse_floating_normal_fast, and for exponents >= -290 the Eisel-Lemire constructor compute_float + "
-            "biased_fp_to_float that takes over when the table product is ambiguous or the exponent is outside its guard - returns the "
-            "bits of the double nearest (ties to even) to w*10^e, finite and normal, with the sign asked for; parse_float rejects as "
+            "integer code - parse_floating_normal_fast, and the Eisel-Lemire constructor compute_float + biased_fp_to_float that takes "
+            "over when the table product is ambiguous or the exponent is outside its guard - returns the bits of the double nearest (ties "
+            "to even) to w*10^e with the sign asked for: finite and normal for exponents >= -307, and for -345..-308 (decided per value "
+            "of leading_zeros(w)) including subnormal results and zero; parse_float rejects as "
             "non-finite only when the exact value rounds to infinity; and the one-operation path parse_float_fast (w < 2^52, exponent "
             "-22..37) multiplies/divides exactly known operands only (w, 10^k, and an intermediate product shown to be an integer below "
             "2^53), so that its single IEEE operation is the rounding of exactly w*10^e. The SSE digit reader simd_str2int (the 16-digit fraction reader of "
@@ -140,7 +141,7 @@ OUTSIDE = {
             "and a failing writer end to end (harnesses w_compound_shape / w_failing_writer ran out of memory)", "BytesMut writers", "MapKeySerializer",
             "strings >= 32 bytes (block path of format_string: b_format_string_w28 needs 21 minutes and is not registered)",
             "the release-only over-read branch"],
-    "C07": ["the big-decimal fallback parse_long_mantissa, Eisel-Lemire for exponents < -290 (subnormal results) and every literal with > 19 significant digits "
+    "C07": ["the big-decimal fallback parse_long_mantissa and every literal with > 19 significant digits "
             "or dropped digits (trunc): NOT covered (paths through them are counted as opaque by the SMT runs); that Eisel-Lemire "
             "*decides* (does not fall back) is not claimed either", "the dev-profile overflow assertion at `add + 1` in parse_floating_normal_fast (neither "
             "solver decides it; release builds wrap there by design)", "literals with more than 22 integer or 22 fraction digits or more than 3 exponent digits, and rejection of "
